@@ -314,6 +314,14 @@ void Timer::TimerThreadProc()
 		if (l_StopTimerThread)
 			break;
 
+#ifdef ICINGA2_VERIF
+		if (Utility::VerifGetTime() >= 0) {
+			/* A virtual clock is set: timers are fired by Timer::VerifFireDue() only. */
+			l_TimerCV.wait_for(lock, ch::milliseconds(50));
+			continue;
+		}
+#endif /* ICINGA2_VERIF */
+
 		auto it = idx.begin();
 
 		// timer->~Timer() may be called at any moment (if the last
@@ -352,3 +360,56 @@ void Timer::TimerThreadProc()
 		lock.lock();
 	}
 }
+
+#ifdef ICINGA2_VERIF
+/**
+ * Verification hook H2: calls, on the caller's thread and in order of their due time,
+ * every started timer which is due at `now`; each one is rescheduled exactly as Timer::Call() does.
+ *
+ * @returns The number of timer calls made.
+ */
+int Timer::VerifFireDue(double now)
+{
+	int fired = 0;
+
+	for (;;) {
+		Timer::Ptr keepAlive;
+
+		{
+			std::unique_lock<std::mutex> lock (l_TimerMutex);
+
+			typedef boost::multi_index::nth_index<TimerSet, 1>::type NextTimerView;
+			NextTimerView& idx = boost::get<1>(l_Timers);
+
+			if (idx.empty())
+				break;
+
+			Timer *timer = *idx.begin();
+
+			if (timer->m_Next > now)
+				break;
+
+			l_Timers.erase(timer);
+
+			keepAlive = timer->m_Self.lock();
+
+			if (!keepAlive)
+				continue;
+
+			timer->m_Running = true;
+		}
+
+		try {
+			keepAlive->Call();
+		} catch (...) {
+		}
+
+		fired++;
+
+		if (fired > 100000)
+			break;
+	}
+
+	return fired;
+}
+#endif /* ICINGA2_VERIF */
